@@ -150,3 +150,89 @@ var _ uuid.UUID
 //@ ensures [C06 cache-last-set] isnil(ret) && snapshot.Metadata.Index != 0 ==> cachedLast == 1
 //@ ensures [C06 cache-last-after-install] isnil(ret) && snapshot.Metadata.Index != 0 ==> cachedLastIdx == snapshot.Metadata.Index
 //@ modifies *
+
+// ---------------------------------------------------------------------------------------------
+// C06: entry ranges under a size limit (raft.Storage.Entries: "MaxSize limits the total size of the log entries returned,
+// but Entries returns at least one entry if any"; MemoryStorage: limitSize). The control logic of the range scan is verified
+// against that rule; Badger's iterator is an assumed interface (an ordered scan of the keys under the prefix).
+//@ func (*github.com/dgraph-io/badger/v2.DB).View
+//@ props C06
+//@ assume
+//@ callsonce fn
+//@ ensures [result-of-fn] ret == $fnret0
+//@ modifies nothing
+//@ func (*github.com/dgraph-io/badger/v2.Txn).Get
+//@ props C06
+//@ assume
+//@ ensures [item] isnil(rerr) ==> item != nil
+//@ modifies nothing
+//@ func (*github.com/dgraph-io/badger/v2.Item).Value
+//@ props C06
+//@ assume
+//@ callsonce fn
+//@ ensures [result-of-fn] ret == $fnret0
+//@ modifies nothing
+//@ func (*github.com/dgraph-io/badger/v2.Item).Key
+//@ props C06
+//@ assume
+//@ modifies nothing
+//@ func (*github.com/dgraph-io/badger/v2.Txn).NewIterator
+//@ props C06
+//@ assume
+//@ ensures [iterator] ret != nil
+//@ modifies nothing
+//@ func (*github.com/dgraph-io/badger/v2.Iterator).Seek
+//@ props C06
+//@ assume
+//@ modifies nothing
+//@ func (*github.com/dgraph-io/badger/v2.Iterator).Valid
+//@ props C06
+//@ assume
+//@ modifies nothing
+//@ func (*github.com/dgraph-io/badger/v2.Iterator).Next
+//@ props C06
+//@ assume
+//@ modifies nothing
+//@ func (*github.com/dgraph-io/badger/v2.Iterator).Item
+//@ props C06
+//@ assume
+//@ ensures [item] ret != nil
+//@ modifies nothing
+//@ func (*github.com/dgraph-io/badger/v2.Iterator).Close
+//@ props C06
+//@ assume
+//@ modifies nothing
+//@ func bytes.Compare
+//@ props C06
+//@ assume
+//@ pure
+//@ modifies nothing
+//@ func (*github.com/coreos/etcd/raft/raftpb.Entry).Unmarshal
+//@ props C06
+//@ assume
+//@ modifies fields(m)
+//@ func (*github.com/coreos/etcd/raft/raftpb.Entry).Size
+//@ props C06
+//@ assume
+//@ pure
+//@ ensures [size] 0 <= ret && ret <= 4294967296
+//@ modifies nothing
+
+//@ func (*storage/wal.badgerWAL).getEntries
+//@ props C06
+//@ safety UNCLAIMED
+//@ ghost total int = 0
+//@ at call Entry).Size
+//@ set total = total + $ret0
+//@ end
+//@ requires [wal] this != nil && this.db != nil
+//@ modifies * except type badgerWAL.cache; type badgerWAL.db; type badgerWAL.groupId
+
+//@ func (*storage/wal.badgerWAL).getEntries$1
+//@ inline
+//@ props C06
+//@ loop 1
+//@ invariant [own-list] cap(*entries) == 0 || fresh(*entries)
+//@ invariant [running-total] size == total && total >= 0 && (first == (len(*entries) == 0))
+//@ invariant [C06 nothing-before-the-first] len(*entries) == 0 ==> total == 0
+//@ invariant [C06 size-limit] len(*entries) >= 2 ==> total <= *maxSize
